@@ -22,13 +22,15 @@ def obligations(tier):
     for mode in range(3):
         for shape in range(3):
             L.append(ob("explicit-false/marshal/mode=%d/shape=%d" % (mode, shape), ".", "VerifC19ExplicitFalseMarshal", [mode, shape]))
-    TU = ['{"d":?,"y":"AQI=","sp":"2","oe":{"q":1}}', '{"y":[1,?],"ns":null,"nm":{}}', '{"FLD_NAME":?,"ss":"\\"x\\""}', '{"fld-name":3,"sp":?,"b":"A?=="}', '{"oe":{"q":?},"oe":{},"x":1}']
+    TU = ['{"d":?,"y":"AQI=","sp":"2","oe":{"q":1}}', '{"y":[1,?],"ns":null,"nm":{}}', '{"FLD_NAME":?,"ss":"\\"x\\""}', '{"fld-name":3,"sp":?,"b":"A?=="}', '{"oe":{"q":?},"oe":{},"x":1}', '{"mm":{"k":{"p":?}}}']
     for mode in range(3):
-        for i, t in enumerate(TU if not q else TU[1:4]):
+        for i, t in enumerate(TU if not q else TU[1:4] + TU[5:6]):
             L.append(ob("explicit-false/unmarshal/mode=%d/t%d" % (mode, i), ".", "VerifC19ExplicitFalseUnmarshal", [mode, t]))
     for i, t in enumerate(['{"?":"1"}', '{"b":1,"q":?}']):
         for wo in (False, True):
             L.append(ob("scope-nil-embedded/t%d/callopt=%d" % (i, wo), ".", "VerifC19ScopeNilEmbedded", [t, wo], covers=["first-error"]))
+    for wo in (False, True):
+        L.append(ob("scope/marshal-failing-member/callopt=%d" % wo, ".", "VerifC19ScopeMarshalFail", [wo], covers=["failed", "succeeded"]))
     for side in (False, True):
         L.append(ob("nil-arshalers/unmarshal=%d" % side, ".", "VerifC19NilArshalers", [side], covers=["unmarshal-done" if side else "marshal-done"]))
     return L
